@@ -894,6 +894,36 @@ func genCSV(g *gen, th bool, scale int) {
 		}
 		g.add(rows > 0, "csv rt %s", wireOf(tbl))
 	}
+	// tables through to_csv({comma:c}) | from_csv({comma:c}) for other delimiters, in particular white
+	// space ones (tab, space) with EMPTY cells and cells that start with white space
+	for _, c := range []string{"\t", " ", ";", "|", "x", "§", "\x0b", "\x0c"} {
+		for _, t := range [][][]string{{{"", "a"}, {"", "b"}}, {{"a", ""}, {"", ""}}, {{"", "", "a"}}, {{" a", "\tb"}, {"c ", " "}}, {{"a" + c + "b", c}, {"", "\"" + c}}} {
+			tbl := make([]any, len(t))
+			for i, row := range t {
+				rr := make([]any, len(row))
+				for j, f := range row {
+					rr[j] = f
+				}
+				tbl[i] = rr
+			}
+			g.add(true, "csvopt rt %s %s", hx([]byte(c)), wireOf(tbl))
+		}
+		for k := 0; k < 150*scale; k++ {
+			rows, cols := r.Range(1, 4), r.Range(1, 4)
+			tbl := make([]any, rows)
+			for i := range tbl {
+				row := make([]any, cols)
+				for j := range row {
+					row[j] = cell()
+					if r.Intn(3) == 0 {
+						row[j] = ""
+					}
+				}
+				tbl[i] = row
+			}
+			g.add(true, "csvopt rt %s %s", hx([]byte(c)), wireOf(tbl))
+		}
+	}
 	// the `comma` option: every single byte, and multi-byte characters, on both sides
 	g.add(true, "csvdelim rt -")
 	for a := 0; a < 256; a++ {
